@@ -422,21 +422,21 @@ class RI:
                     else_clause = cl
                 else:
                     pats.append([ci, gen.pat_sem(p, menv), cl.prio or 0])
-        alive = [(ci, q, pr) for ci, q, pr in pats]
+        alive = [(ci, q, pr, pi) for pi, (ci, q, pr) in enumerate(pats)]
         consumed_any = False
         while True:
-            done_now = [(ci, q, pr) for ci, q, pr in alive if rx.nullable(q)]
-            cont = [(ci, q, pr) for ci, q, pr in alive if not rx.only_eps(q)]
+            done_now = [x for x in alive if rx.nullable(x[1])]
+            cont = [x for x in alive if not rx.only_eps(x[1])]
             if done_now and not cont:
                 chosen = self.pick(s, done_now)
                 break
             self.maybe_complete = bool(done_now)
             c = self.peek()
             self.maybe_complete = False
-            nxt = [(ci, rx.deriv(q, c), pr) for ci, q, pr in alive]
-            nxt = [(ci, d, pr) for ci, d, pr in nxt if d != rx.EMPTY]
+            nxt = [(ci, rx.deriv(q, c), pr, pi) for ci, q, pr, pi in alive]
+            nxt = [x for x in nxt if x[1] != rx.EMPTY]
             if nxt:
-                if done_now and not s.greedy:
+                if done_now and not s.greedy and any(x[3] != d[3] for x in nxt for d in done_now):
                     self.ambiguities.append(("case-finish-or-continue", self.pos, c))
                 self.consume()
                 self.after_byte(c)
@@ -454,14 +454,14 @@ class RI:
         self.block(s.clauses[chosen].body, loops)
 
     def pick(self, s, done_now):
-        clauses = {ci for ci, q, pr in done_now}
+        clauses = {x[0] for x in done_now}
         if len(clauses) == 1:
             return next(iter(clauses))
         if not s.greedy:
             self.ambiguities.append(("case-two-clauses", self.pos, None))
             return min(clauses)
-        best = max(pr for ci, q, pr in done_now)
-        top = {ci for ci, q, pr in done_now if pr == best}
+        best = max(x[2] for x in done_now)
+        top = {x[0] for x in done_now if x[2] == best}
         if len(top) > 1:
             self.ambiguities.append(("greedy-tie", self.pos, None))
         return min(top)
